@@ -170,8 +170,8 @@ def matchRe (s : List Char) : Option ReColor :=
         | none => none
       | none => none
 
-/-- Body of `Color.parse` after `color = color.lower().strip()`.  `vErr = true`: today's code, where
-the `ValueError` of `int()` escapes (F9); `false`: the repaired code raises `ColorParseError`. -/
+/-- Body of `Color.parse` after `color = color.lower().strip()`.  `vErr = true`: rich 9.10.0 as found, where
+the `ValueError` of `int()` escapes (F9); `false`: the repaired code (fix c34676b, what /repo contains now) raises `ColorParseError`. -/
 def parseNorm (vErr : Bool) (color : List Char) : Except Exc Color :=
   if color == cl! "default" then .ok { name := color, type := .default }
   else match ansiColorNumber color with
